@@ -6,7 +6,7 @@ use crate::rng::Rng;
 use crate::term::*;
 
 /// (source text, expected message, expected error code, expected first line of the trace)
-pub const SOURCES: [(&str, &str, &str, &str); 13] = [
+pub const SOURCES: [(&str, &str, &str, &str); 17] = [
     ("error boom", "boom", "NONE", "boom"),
     ("error {two words}", "two words", "NONE", "two words"),
     ("throw MYCODE thrown", "thrown", "MYCODE", "thrown"),
@@ -20,9 +20,13 @@ pub const SOURCES: [(&str, &str, &str, &str); 13] = [
     ("rce", "rmsg", "NONE", "rmsg"),
     ("rcei", "imsg", "ECODE", "given info"),
     ("rcec", "cmsg", "ONLYCODE", "cmsg"),
+    ("rceo", "omsg", "OCODE", "omsg"),
+    ("error \"two\\r\\nlines\"", "two\r\nlines", "NONE", "two\r"),
+    ("error \"trail\\n\"", "trail\n", "NONE", "trail"),
+    ("throw {C R} \"a\\r\\nb\\n\"", "a\r\nb\n", "C R", "a\r"),
 ];
 
-pub const PRELUDE: &str = "proc pa2 {a b} {}; set nonint abc; proc rce {} {return -code error rmsg}; proc rcei {} {return -code error -errorcode ECODE -errorinfo {given info} imsg}; proc rcec {} {return -code error -errorcode ONLYCODE cmsg}";
+pub const PRELUDE: &str = "proc pa2 {a b} {}; set nonint abc; proc rce {} {return -code error rmsg}; proc rcei {} {return -code error -errorcode ECODE -errorinfo {given info} imsg}; proc rcec {} {return -code error -errorcode ONLYCODE cmsg}; proc rceo {} {return -errorcode OCODE -code error omsg}";
 
 const FRAMES: [&str; 4] = ["proc", "if", "foreach", "while"];
 
@@ -62,7 +66,7 @@ pub fn gen(tier: &str, seed: u64) -> Gen {
         stacks.extend(next.iter().cloned());
         level = next;
     }
-    let variants = ["host", "catch", "rethrow", "rethrow2", "quiet"];
+    let variants = ["host", "catch", "rethrow", "rethrow2", "rethrow3", "quiet"];
     let mut n = 0;
     for s in &stacks {
         for src in 0..SOURCES.len() {
@@ -76,7 +80,7 @@ pub fn gen(tier: &str, seed: u64) -> Gen {
             }
         }
     }
-    (cases, vec![(format!("13 error sources x every stack of proc/if/foreach/while frames of depth<={} x 5 observation variants (host, catch, rethrow x2, quiet)", maxdepth), n, thorough)])
+    (cases, vec![(format!("17 error sources x every stack of proc/if/foreach/while frames of depth<={} x 6 observation variants (host, catch, rethrow x3, quiet)", maxdepth), n, thorough)])
 }
 
 fn host_obs(interp: &mut molt::Interp, script: &str) -> Term {
@@ -102,6 +106,10 @@ pub fn run(case: &Term) -> Term {
         "rethrow" => host_obs(
             &mut interp,
             &format!("catch {{{}}} r o; rec first [dict get $o -errorinfo]; return {{*}}$o $r", f),
+        ),
+        "rethrow3" => host_obs(
+            &mut interp,
+            &format!("catch {{{}}} r o; rec first [dict get $o -errorinfo]; proc again {{r o}} {{return -errorinfo [dict get $o -errorinfo] -errorcode [dict get $o -errorcode] -code error $r}}; catch {{again $r $o}} r2 o2; rec second $r2 [dict get $o2 -errorcode] [dict get $o2 -errorinfo]", f),
         ),
         "rethrow2" => host_obs(
             &mut interp,
